@@ -32,6 +32,6 @@ try:
 finally:
     subprocess.run(["git", "-C", "/repo", "checkout", "--", "."])
     subprocess.run(["git", "-C", "/repo", "clean", "-fdq", "tests/demo.rs"], capture_output=True)
-json.dump({"ran": ids, "results": results, "at": time.strftime("%Y-%m-%dT%H:%M:%SZ", time.gmtime())}, open(os.path.join(d, "result.json"), "w"), indent=1)
+json.dump({"ran": ids, "results": results, "at": time.strftime("%Y-%m-%dT%H:%M:%SZ", time.gmtime())}, open(os.path.join(d, os.environ.get("SEEDED_OUT", "result.json")), "w"), indent=1)
 for pid, r in results.items():
     print(pid, "CAUGHT" if r["caught"] else "missed", r["exit"], r["summary"][:160])
